@@ -173,6 +173,14 @@ def inA01z (c : Cluster) : Bool :=
     | some pages => !(Spec.liveRows pages []).isEmpty
     | none => false
 
+/-- run-time re-check of the reader hypothesis of `C01_dump_partial` on this cluster: ReadRows applied to every
+encoded pg_class yields the live rows (as far as oid, relname, relfilenode, relkind go) -/
+def classHypOK (c : Cluster) : Bool :=
+  c.content.all fun (_, d) =>
+    match rr (Spec.encHeapOf Spec.pgClassCols Spec.classVals d.cls) Model.schemaPGClass true with
+    | .ok rows => rows.map Model.infoOfRow == d.cls.live.map Model.infoOfRel
+    | .error _ => false
+
 def clusterTags (c : Cluster) (combos : List Options) (spec : String) : List String :=
   let nTables : Nat := (c.content.map fun (_, d) => (d.cls.live.filter fun r => r.kind == 114).length).sum
   let nRows : Nat := (c.content.map fun (_, d) => (d.heaps.map fun h => h.2.flatten.length).sum).sum
@@ -183,6 +191,7 @@ def clusterTags (c : Cluster) (combos : List Options) (spec : String) : List Str
    (if nRows == 0 then "rows=0" else if nRows < 20 then "rows<20" else "rows>=20"),
    s!"clspages={min clsPages 4}", s!"attpages={min attPages 4}"] ++
   (if Gen.clusterWFB c then [] else ["notwf"]) ++
+  [if classHypOK c then "hyp:class=ok" else "hyp:class=FAIL"] ++
   (if inA01z c then ["kf:A01z"] else []) ++
   (if inA03 c then ["kf:A03"] else []) ++
   (if inA04 c combos then ["kf:A04"] else []) ++
